@@ -69,13 +69,28 @@ TrimL(t) == IF Len(t) > 0 /\ t[1] \in {32, 9, 10, 13} THEN TrimL(Tail(t)) ELSE t
 TrimR(t) == IF Len(t) > 0 /\ t[Len(t)] \in {32, 9, 10, 13} THEN TrimR(SubSeq(t, 1, Len(t) - 1)) ELSE t
 DocsOK(c) == \A x \in 1..Len(c.store) : c.store[x].doc.t = "unspec" \/ RenderJson(c.store[x].doc) = TrimR(TrimL(c.store[x].v))
 
+\* can the (optimised) expression be written back in the language ?  no negative number, no Boolean literal as an operand
+RECURSIVE Writable(_)
+Writable(e) == /\ ~(e.k \in {"int", "flt"} /\ e.n < 0)
+               /\ ~(e.k \in {"bin", "not", "call", "list", "idx"} /\ \E x \in 1..Len(e.a) : e.a[x].k = "bool")
+               /\ \A x \in 1..Len(e.a) : Writable(e.a[x])
+\* every constant sub-expression (no key, value or name in it) has a value the contract knows
+RECURSIVE RowFree(_), ConstsKnown(_)
+RowFree(e) == e.k \notin {"key", "val", "name"} /\ \A x \in 1..Len(e.a) : RowFree(e.a[x])
+ConstsKnown(e) == IF RowFree(e) /\ e.k \in {"bin", "not", "call", "idx"} THEN Eval(e, Pair(<<>>, <<>>), <<>>).t # "unspec"
+                  ELSE \A x \in 1..Len(e.a) : ConstsKnown(e.a[x])
 Verdict(c) ==
   LET main == Runs(c, "main")
       expl == Runs(c, "explained")        \* the plan's printed filter put back into a statement (C15: "the filter shown by EXPLAIN is the filter executed")
       all  == main \o Runs(c, "expanded") \o Runs(c, "unfolded") \o expl
   IN IF ~SortedStore(c.store) \/ ~DocsOK(c) THEN "infra-bad-store-in-record"
-     \* (the optimised filter may hold what the language cannot write - a bare true under `or`, a negative number: then it
-     \* is refused and nothing is judged; when it is accepted it must select the same rows)
+     \* (the optimised filter may hold what the language cannot write - a bare true / false as an operand, a negative
+     \* number; the KvFold design says when: then a refusal is not judged.  Otherwise it must be accepted, and whenever it is
+     \* accepted it must select the same rows)
+     ELSE IF /\ \E x \in 1..Len(expl) : expl[x].phase = "rejected" /\ \E y \in 1..Len(main) : main[y].phase = "done"
+             /\ Writable(Optimize(c.stmt.where)) /\ ConstsKnown(c.stmt.where)
+             /\ c.store # <<>> /\ Modelled(c.stmt, c.store)         \* (the design's folding is only known where the contract knows the constants)
+          THEN "explained-filter-is-not-accepted"
      ELSE IF ~Agree(c, expl \o (IF main = <<>> THEN <<>> ELSE <<main[1]>>)) THEN "explained-filter-selects-other-rows"
      ELSE IF "agree" \in c.checks /\ ~Agree(c, all) THEN "runs-disagree"
      ELSE IF "agree" \in c.checks /\ ~BatchImpliesRow(main) THEN "batch-completes-but-row-fails"
